@@ -3,6 +3,7 @@ from __future__ import annotations
 
 import hashlib
 import json
+import re
 import os
 import random
 
@@ -12,6 +13,16 @@ from vf.pool import pmap
 SEPS = {"space": " ", "tab": "\t", "newline": "\n", "crlf": "\r\n", "two-spaces": "  ", "backslash-newline": " \\\n ", "block-comment": "/* c */",
         "block-comment-stars": "/** c * **/", "line-comment": " // c ; } \"\n", "comment-and-newline": "\n/* x */\n", "empty": ""}
 PUNCT = {"(": "OPEN_PAREN", ")": "CLOSE_PAREN", "{": "OPEN_BRACE", "}": "CLOSE_BRACE", ",": "COMMA", ":": "COLON", ";": "SEMI", "[": "OPEN_BRACKET", "]": "CLOSE_BRACKET"}
+
+
+LITERAL_SEEDS = [
+    """def 0 { op(-1.5, 12.25, -0.5, 0.5, -12.025, 3.0, -7, 0x1f, 0, -0, 255, 0b11, 0o17, -0X10); @l; jump @l; }""",
+    """def 0 { op2("He said \\"no\\"", 'it\\'s', "a'b", 'a"b', "\\"x", "x\\"", '\\'', "plain", '', "\\"\\""); }""",
+    """def 0 for actor ACTOR_X { op3(Position<'m', 1.5, -2>, Position<"m'", 0.5, 3.5>, Position<'q"', 10, 0>); §e; }
+def 1 for object 3 { msg({english="it's", german='"q"', french="a"}); Turn2DirectionLives(-3.25, A2); }
+def 2 for performer 0 { if ($V == -0x0A) { op(1.50, "x'"); } switch ($W) { case 17: case -1: f("\\'"); break; } }""",
+    """coro C { with (actor A) { op(-100.001); } $V = 0b1010; $V -= 1.75; $X = scn[0x1, 2]; }""",
+]
 
 
 def tokenize(src: str) -> list[dict]:
@@ -36,6 +47,8 @@ def tokenize(src: str) -> list[dict]:
             body = t["text"][1:-1]
             if not any(c in body for c in "'\"\\\n\r"):
                 t["f"].append("plain-content")
+            elif "\n" not in body and "\r" not in body and "\\" not in re.sub(r"\\['\"]", "", body):
+                t["f"].append("quotes-only-content")   # every backslash escapes a quote character
             if prev["k"] not in ("IMPORT", "OPEN_SHARP"):
                 t["f"].append("string-value-context")
         if t["k"] == "OPEN_PAREN":
@@ -75,9 +88,11 @@ def render(toks: list[dict], seps: list[str], alts: dict) -> str:
                 neg = text.startswith("-")
                 text = ("-" if neg else "") + "0" * int(a[1]) + text.lstrip("-")
             elif a[0] == "QuoteStyle":
-                body = text[1:-1]
                 q = {"single": "'", "double": '"', "triple-single": "'''", "triple-double": '"""'}[a[1]]
-                text = q + body + q
+                if "plain-content" in t["f"]:
+                    text = q + text[1:-1] + q
+                else:   # quotes-only content: the value with exactly the delimiter character escaped
+                    text = q + litref.read_single(text).replace(q, "\\" + q) + q
         if alts.get(i - 1, [""])[0] == "LegacyTarget":
             text = ""          # the kind word was merged into for_<kind>(
         out.append(text)
@@ -148,7 +163,7 @@ def plan(rng: random.Random, src: str, nsteps: int) -> list[dict]:
             continue
         want = {"SwapLabelSigil": lambda t: "label-definition" in t["f"], "LegacyTarget": lambda t: "routine-target" in t["f"],
                 "TrailingComma": lambda t: "closes-nonempty-arglist" in t["f"], "IntBase": lambda t: t["k"] == "INTEGER",
-                "DecimalLeadingZeros": lambda t: t["k"] == "DECIMAL", "QuoteStyle": lambda t: t["k"] == "STRING_LITERAL" and "plain-content" in t["f"]}[kind]
+                "DecimalLeadingZeros": lambda t: t["k"] == "DECIMAL", "QuoteStyle": lambda t: t["k"] == "STRING_LITERAL" and ("plain-content" in t["f"] or "quotes-only-content" in t["f"])}[kind]
         cand = [i for i, t in enumerate(toks) if want(t)]
         if not cand:
             continue
@@ -159,7 +174,7 @@ def plan(rng: random.Random, src: str, nsteps: int) -> list[dict]:
         if kind == "DecimalLeadingZeros":
             w = rng.choice(["0", "1", "2"])
         if kind == "QuoteStyle":
-            opts = ["single", "double"] + (["triple-single", "triple-double"] if "string-value-context" in toks[i]["f"] else [])
+            opts = ["single", "double"] + (["triple-single", "triple-double"] if "string-value-context" in toks[i]["f"] and "plain-content" in toks[i]["f"] else [])
             w = rng.choice(opts)
         steps.append({"a": kind, "i": i + 1, "w": w})
     return steps
@@ -203,6 +218,26 @@ def main() -> int:
                     if not ((a in punct or b in punct) and not (a == "STRING_LITERAL" and b == "STRING_LITERAL")):
                         continue
                 steps.append({"a": "SetSeparator", "i": i, "w": w})
+        for j in range(0, len(steps), 40):
+            cases.append({"src": s, "steps": steps[j:j + 40], "cumulative": False})
+    # literal layer: every alternative spelling of every literal of hand-written literal-rich seeds (each from the base spelling)
+    for s in LITERAL_SEEDS:
+        toks = tokenize(s)
+        steps = []
+        for i, t in enumerate(toks):
+            if t["k"] == "INTEGER":
+                steps += [{"a": "IntBase", "i": i + 1, "w": w} for w in ("dec", "hex", "HEX", "oct", "bin")]
+            if t["k"] == "DECIMAL":
+                steps += [{"a": "DecimalLeadingZeros", "i": i + 1, "w": w} for w in ("0", "1", "2")]
+            if t["k"] == "STRING_LITERAL" and ("plain-content" in t["f"] or "quotes-only-content" in t["f"]):
+                ws = ["single", "double"] + (["triple-single", "triple-double"] if "plain-content" in t["f"] and "string-value-context" in t["f"] else [])
+                steps += [{"a": "QuoteStyle", "i": i + 1, "w": w} for w in ws]
+            if "label-definition" in t["f"]:
+                steps.append({"a": "SwapLabelSigil", "i": i + 1, "w": ""})
+            if "routine-target" in t["f"]:
+                steps.append({"a": "LegacyTarget", "i": i + 1, "w": ""})
+            if "closes-nonempty-arglist" in t["f"]:
+                steps.append({"a": "TrailingComma", "i": i + 1, "w": ""})
         for j in range(0, len(steps), 40):
             cases.append({"src": s, "steps": steps[j:j + 40], "cumulative": False})
     recs = pmap(run_chain, cases, limit=60.0, chunk=4)
